@@ -69,6 +69,26 @@ def build_harness(variant="asan"):
     return path, ""
 
 
+def hygiene():
+    """No Admitted/admit/Axiom/Parameter/Conjecture/Admit Obligations, no guard or universe switches; Variable / Hypothesis /
+    Context only inside a Section.  Comments are ignored.  Returns the offending lines."""
+    bad = []
+    for root, _, files in os.walk(COQ):
+        for f in files:
+            if not f.endswith(".v"): continue
+            text = open(os.path.join(root, f), errors="replace").read()
+            text = re.sub(r"\(\*.*?\*\)", lambda m: "\n" * m.group(0).count("\n"), text, flags=re.S)
+            depth = 0
+            for ln, line in enumerate(text.split("\n"), 1):
+                if re.match(r"\s*Section\b", line): depth += 1
+                elif re.match(r"\s*End\b", line) and depth > 0: depth -= 1
+                if re.search(r"\b(Admitted|admit|Axiom|Axioms|Parameter|Parameters|Conjecture|Admit Obligations|bypass_check|Unset Guard Checking|Unset Positivity Checking|Unset Universe Checking|type-in-type|impredicative-set)\b", line):
+                    bad.append("%s:%d: %s" % (os.path.relpath(os.path.join(root, f), COQ), ln, line.strip()[:100]))
+                elif depth == 0 and re.match(r"\s*(Variable|Variables|Hypothesis|Hypotheses|Context)\b", line):
+                    bad.append("%s:%d (outside a section): %s" % (os.path.relpath(os.path.join(root, f), COQ), ln, line.strip()[:100]))
+    return bad
+
+
 THEOREM_RE = re.compile(r"^\s*(Theorem|Corollary)\s+([A-Za-z0-9_']+)", re.M)
 
 
@@ -81,11 +101,7 @@ def check_props(prop_id, timeout=3000):
     res = {"file": "coq/Props/%s.v" % prop_id, "theorems": theorems, "obligations": len(theorems),
            "discharged": 0, "assumptions": {}, "log": "", "ok": False, "hygiene": []}
     # hygiene: nothing admitted or assumed anywhere in the development
-    bad = sh(r"grep -rnE '\b(Admitted|admit|Axiom|Parameter|Conjecture|Hypothesis|Unset Guard|bypass_check|Admit Obligations)\b' "
-             r"--include=*.v . | grep -v '^./Gen/.*(\*' | grep -vE '^\S+:\s*\(\*' || true", cwd=COQ).stdout.strip()
-    bad = "\n".join(l for l in bad.splitlines() if not re.search(r"Section|Variable|Context", l) and "conda" not in l)
-    # Hypothesis/Variable are allowed inside sections only; flag 'Hypothesis' lines for manual review
-    res["hygiene"] = [l for l in bad.splitlines() if l.strip()]
+    res["hygiene"] = hygiene()
     with Lock():
         deps_ok, log = coq_make(["Props/%s.vo" % prop_id], timeout)
     res["log"] = log[-6000:]
